@@ -4,6 +4,7 @@ import (
 	"context"
 	"errors"
 	"fmt"
+	"sync/atomic"
 	"testing"
 	"time"
 
@@ -90,7 +91,7 @@ func TestC10(t *testing.T) {
 			_ = RawSend(X, S.ID, m)
 		}
 		inc := ""
-		struck := false
+		var struckFlag int32
 		release := make(chan struct{})
 		released := false
 		rel := func() {
@@ -122,7 +123,7 @@ func TestC10(t *testing.T) {
 				inc = why
 			}
 			strike()
-			struck = true
+			atomic.StoreInt32(&struckFlag, 1)
 			if ok, why := w.Quiesce(); !ok {
 				inc = why
 			}
@@ -132,7 +133,7 @@ func TestC10(t *testing.T) {
 			_ = RawSend(A, S.ID, NewReq(id, c.DAG.Root, c.Sel))
 			<-entered
 			strike()
-			struck = true
+			atomic.StoreInt32(&struckFlag, 1)
 			if ok, why := w.Quiesce(); !ok {
 				inc = why
 			}
@@ -154,7 +155,7 @@ func TestC10(t *testing.T) {
 				pausedAt = -1
 			}
 			strike()
-			struck = true
+			atomic.StoreInt32(&struckFlag, 1)
 			if ok, why := w.Quiesce(); !ok {
 				inc = why
 			}
@@ -168,8 +169,7 @@ func TestC10(t *testing.T) {
 			n := 0
 			w.Fab.Link(S.ID, A.ID).AfterDeliver = func(*fab.WireMsg) {
 				n++
-				if n == j && !struck {
-					struck = true
+				if n == j && atomic.CompareAndSwapInt32(&struckFlag, 0, 1) {
 					strike()
 				}
 			}
@@ -231,7 +231,7 @@ func TestC10(t *testing.T) {
 			if sig == "" && (comp != 1 || canc != 0 || compStatus != v.Terminal) {
 				rep.Violation(ci, "C10/victim-notifications-changed", fmt.Sprintf("outcome notifications for A's response: completed=%d (status %s, wire %s) cancelled=%d after X sent %s while %s", comp, compStatus, v.Terminal, canc, attack, point), detail())
 			}
-			if struck {
+			if atomic.LoadInt32(&struckFlag) == 1 {
 				rep.Nontrivial(rt.Key(c.DAG.Root, SelJSON(c.Sel), point, attack, ci))
 				rep.SetAdd("point_x_attack", point+"/"+attack)
 			}
